@@ -44,8 +44,9 @@ CHECKS = {
     "C06": ("GetSize vs bytes emitted for every pool type/value, and every capacity 0..GetSize+2 on BufferWriter, "
             "PedanticBufferWriter, ConstexprBufferWriter and BoundedWriter over each with guard bytes; table entry frames "
             "re-parsed by Dec (incl. handles of every policy as entries and a handle-bearing table nested in an entry); 16 "
-            "encodings written at every capacity below their length through the checked writer classes directly "
-            "(FormsCapFails); W4 model-checked.", "6 C06"),
+            "encodings written at every capacity below their length through the checked writer classes directly and "
+            "through the unchecked BufferWriter behind each of the three Serializer specializations (guarded bytes; "
+            "FormsCapFails); W4 model-checked.", "6 C06"),
     "C10": ("For every generated value a fault is injected at EVERY primitive call position of Read and Write with every error "
             "code (the usual ones plus others in rotation; all 18 for handle transfers); TrCodec.tla C10Runs requires the code back verbatim, no call after the failure, emitted bytes a prefix of "
             "the fault-free output and nothing written when Prepare fails. The same at the RPC layer: a fault at every "
@@ -57,14 +58,16 @@ CHECKS = {
             "over short, long and half-read destinations.", "6 C11"),
     "C16": ("IO.tla automata of BoundedReader/BoundedWriter: MC_IO explores every call sequence (sizes incl. 0, budget, "
             "budget+1, 2^64-1, 2^64-2; every limit; wrapped object failing at any call) and checks Confine, "
-            "RefusalUntouched, Transparent; TLC-generated sequences (Gen_IO) and random sequences are replayed on real "
+            "RefusalUntouched, Transparent; TLC-generated sequences (Gen_IO), random sequences and a ladder of request sizes and "
+            "limits around 32..4096 (64 Ki thorough) are replayed on real "
             "BoundedReader/BoundedWriter over an instrumented wrapped object and every call is validated by TrIO.tla "
             "(status, index, wrapped position, exact wrapped calls, capacity()/empty()). Confine.tla models the wrappers in "
             "their machine arithmetic (wrapped size_ - index_): TLC checks it exhaustively for a 4-bit size_t together with "
             "its step refinement to IO.tla (MC_Confine), and Apalache proves its invariant inductive for the 64-bit size_t "
             "(every limit, index and request size in 0..2^64-1).", "6 C16, 13.2"),
     "C17": ("The same TLC-generated and random call sequences are executed directly on every library reader and writer "
-            "(and Bounded over each) with element widths 1/2/4/8; TrIO.tla requires each call to be the step of the "
+            "(and Bounded over each) with element widths 1/2/4/8 and a ladder of request sizes (31..4097, 64 Ki thorough) with "
+            "sources / capacities that just suffice or are one byte short; TrIO.tla requires each call to be the step of the "
             "IO.tla contract automaton up to and including the first failing call (FdReader also over a bursty pipe, FdReader / "
             "FdWriter over descriptors whose read()/write() fail with EINTR and transfer short counts; "
             "StreamWriter over a stream that takes only cap bytes -> StreamError, FdWriter on /dev/full -> IOError), and "
